@@ -61,7 +61,7 @@ def make_scratch(instrument=True):
         instr_stats = r.stdout.strip()
     else:
         instr_stats = "not instrumented"
-    tmpl = open(os.path.join(VERIF, "harness", "go.mod.tmpl")).read().replace("@SCRATCH@", scratch)
+    tmpl = open(os.path.join(VERIF, "harness", "go.mod.tmpl")).read().replace("@SCRATCH@", scratch).replace("@VERIF@", VERIF)
     open(scratch + "/go.mod", "w").write(tmpl)
     sums = open(os.path.join(REPO, "go.sum")).read()
     extra = os.path.join(VERIF, "harness", "go.sum.extra")
